@@ -541,12 +541,14 @@ def State.rtx0Loop (s : State) (dir : Dir) : Nat → Nat → Option State
     let id := sidNew .client dir i
     match s.send.find? id with
     | some (some x) =>
-      if x.pending.isFullyAcked && !x.finPending then State.rtx0Loop s dir n (i + 1)
+      if x.pending.isFullyAcked && !x.finPending && !x.rtx0Finished then State.rtx0Loop s dir n (i + 1)
       else
         let q := if !x.isPending then s.pending.pushPending id x.priority else s.pending
         match x.pending.retransmitAllFor0rtt with
         | none => none
-        | some p => State.rtx0Loop { (s.putSend id { x with pending := p }) with pending := q } dir n (i + 1)
+        | some p =>
+          State.rtx0Loop { (s.putSend id { x with pending := p, finPending := x.finPending || x.rtx0Finished })
+            with pending := q } dir n (i + 1)
     | _ => State.rtx0Loop s dir n (i + 1)
 
 /-- `StreamsState::retransmit_all_for_0rtt` -/
